@@ -4,6 +4,7 @@ use crate::{Report, RunCtx, Tier, Violation, out, run_worker};
 use serde_json::{Value, json};
 use std::collections::HashMap;
 
+pub mod c06;
 pub mod c08;
 pub mod c08_solve;
 pub mod c09;
@@ -14,6 +15,7 @@ pub mod c16;
 pub mod c17;
 pub mod c18;
 pub mod c19;
+pub mod c20;
 
 pub type Extra = HashMap<String, String>;
 
@@ -28,11 +30,13 @@ pub struct Check {
 
 pub fn registry() -> Vec<Check> {
     vec![
+        Check { id: "C06", run: c06::run, replay: c06::replay, worker: None },
         Check { id: "C08", run: c08::run, replay: c08::replay, worker: None },
         Check { id: "C09", run: c09::run, replay: c09::replay, worker: None },
         Check { id: "C13", run: c13::run, replay: c13::replay, worker: None },
         Check { id: "C14", run: c14::run, replay: c14::replay, worker: None },
         Check { id: "C16", run: c16::run, replay: c16::replay, worker: None },
+        Check { id: "C20", run: c20::run, replay: c20::replay, worker: None },
         Check { id: "C19", run: c19::run, replay: c19::replay, worker: None },
         Check { id: "C18", run: c18::run, replay: c18::replay, worker: None },
         Check { id: "C17", run: c17::run, replay: c17::replay, worker: Some(c17::worker) },
